@@ -3,6 +3,7 @@ from common import coq_options, coq_string, run_batch, run_driver
 import sink
 
 ID = "C07"
+VALIDATE_MIX = True      # every third case also goes through the validator: it only gates (unread parameters included)
 ENV_RERUN = 40          # cases repeated from a cargo build-script environment (lib/runner.py with_build_env)
 TABLES = ["vertex_format"]      # leaf tables compared exhaustively through the hooks (coq/Check/Tables.v)
 REQUIRES = ["Agree", "C07Spec", "C07Premise", "Truth"]
@@ -49,7 +50,9 @@ def program(rng):
         loc += k + rng.randint(0, 2)
         if rng.random() < 0.4:
             rng.shuffle(locs)
-        fields = ["@location(%d) f%d: %s" % (l, i, rng.choice(VT[:12] if rng.random() < 0.85 else VT)) for i, l in enumerate(locs)]
+        # member names in every naming convention: the attribute names the Rust field of the SAME name
+        style = rng.choice(["f%d", "f%d", "texCoord%d", "baseColor%d", "Normal%d", "uv%dScale", "_m%d", "POS%d"])
+        fields = ["@location(%d) %s: %s" % (l, style % i, rng.choice(VT[:12] if rng.random() < 0.85 else VT)) for i, l in enumerate(locs)]
         if rng.random() < 0.3:
             fields.insert(rng.randrange(len(fields) + 1), "@builtin(vertex_index) vi: u32")
         elif rng.random() < 0.1:
